@@ -15,15 +15,15 @@ CLAIMS = {
               '(from AST), loader and VM tied to the real Parser/Loader/Machine on the same scripts (correspondences A, B, C). '
               'Theorems proved so far: group/location action = the single-light action on each member in name order (all '
               'populations, all registers); members of a group are exactly the lights reporting it; operands joined by `and` '
-              'share one delay. Forward simulation (Lang/Simulation.v, Simulation2.v) is proved for every program made of register '
+              'share one delay. Forward simulation (Lang/Simulation.v, Simulation2.v, Simulation3.v) is proved for every program made of register '
               'settings, unit switches, assignments, print / println, wait, set / on / off of all lights or lists of lights, groups and '
-              'locations, if / else, begin-end blocks, `repeat while` and counted `repeat n` loops nested to any depth -- values any ordinary rvalue or call-free numeric expression of any size -- and every population: WHENEVER the reference '
+              'locations, if / else, begin-end blocks, `repeat while`, counted `repeat n` and endless `repeat` loops and `break`, nested to any depth -- values any ordinary rvalue or call-free numeric expression of any size -- and every population: WHENEVER the reference '
               'semantics runs the source to its end with events evs, the code of the compiler model, loaded and run on the machine model '
               'from the initial state, finishes with exactly evs (and statement by statement for code anywhere in an image, inside any enclosing loops). For '
-              'the other loop forms, break, routines, zones and matrix blocks the agreement of reference semantics, compiler, loader and machine models with each '
+              'the loop forms with an index or light variable, routines, zones and matrix blocks the agreement of reference semantics, compiler, loader and machine models with each '
               'other and with the implementation is established per run by the oracle and correspondence comparisons, i.e. by testing, over '
               '~400 (quick) / ~6000 (thorough) scripts.'),
-        note=COMMON_NOTE + 'Partial: the simulation theorem covers call-free programs with if / else, `repeat while` and `repeat n` loops (no break, no index or light variable) only; arithmetic outside the modelled range (libm, rgb, ints beyond 2^53 with floats) is skipped and counted; device layer = repository fakes.',
+        note=COMMON_NOTE + 'Partial: the simulation theorem covers call-free programs with if / else, `repeat while`, `repeat n`, endless `repeat` and `break` (no index or light variable, no routines) only; arithmetic outside the modelled range (libm, rgb, ints beyond 2^53 with floats) is skipped and counted; device layer = repository fakes.',
         technique='Coq reference semantics + machine/compiler models; lemmas by induction; oracle and correspondence by vm_compute evaluation of generated cases',
         design='DESIGN.md 7 C01'),
     'C05': dict(
@@ -35,7 +35,7 @@ CLAIMS = {
               'abstraction proved to cover all 32 op codes). The checker is evaluated in Coq on the image the REAL compiler and loader '
               'produce for every generated script (translation validation, including routines defined inside branches and loops). '
               'Loader theorems: the image is jump + routine blocks + all other instructions in order; the distance the code generator '
-              'counts with equals the distance in the loaded main segment.'),
+              'counts with equals the distance in the loaded main segment. For the structured fragment of the simulation theorem (covered statements, if / else, blocks, while / counted / endless loops, break; Lang/Simulation3.v) it is a theorem over all such programs and all condition values that control arrives where the source says -- behind the statement, or at the END_LOOP of the innermost loop on a break -- with the stack and the frames the statement was entered with.'),
         note=COMMON_NOTE + 'The soundness theorem is about the machine model (tied to Machine.run by correspondence C on every run); that the compiler only produces checked images is established per generated script by running the checker, not by a theorem over all scripts.',
         technique='Coq-verified checker (soundness by induction over reachable states) + translation validation of real images',
         design='DESIGN.md 7 C05'),
